@@ -5,7 +5,7 @@
 From Coq Require Import List NArith Bool.
 From Coq Require String.
 Import String.StringSyntax.
-From Sccache Require Import Base.Sx Model.Lru Model.LruPut.
+From Sccache Require Import Base.Sx Model.Lru Model.LruPut Model.LruLazy.
 Import ListNotations.
 Local Open Scope N_scope.
 Local Open Scope string_scope.
@@ -133,7 +133,58 @@ Definition run_put (x : sx) : sx :=
   | _ => err "bad case"
   end.
 
+(* ---- leg "lazy": the lazily opened DiskCache with an open-fault oracle.
+   case = ( cap ( (put key n wfault ofault) | (get key ofault) ... ) )   ofault = 1: this request's open attempt fails
+   obs  = ( res size ( (path size) ... ) nhandles stray loc_ok nroot )
+          stray  = entry files found outside the configured directory (always 0 here)
+          loc_ok = the cache reports the configured directory as its location
+          nroot  = entry files under the configured directory *)
+Definition dec_lop (x : sx) : option lop :=
+  match x with
+  | SL [t; a; f] => if is_sym "get" t then Some (LGet (kpath (get_B a)) (get_bool f)) else None
+  | SL [t; a; b; c; f] =>
+      if is_sym "put" t then Some (LPut (kpath (get_B a)) (get_N b) (dec_fault (get_N b) c) (get_bool f)) else None
+  | _ => None
+  end.
+
+Fixpoint dec_lops (l : list sx) : option (list lop) :=
+  match l with
+  | [] => Some []
+  | x :: r => match dec_lop x, dec_lops r with
+              | Some o, Some os => Some (o :: os)
+              | _, _ => None
+              end
+  end.
+
+Definition enc_lobs (root : list N) (x : lout * lazy) : sx :=
+  let '(o, l) := x in
+  let loc := sbool (bytes_eqb (lazy_root l) root) in
+  match l with
+  | LInit _ s =>
+      match o with
+      | LD d => match enc_dobs (d, s) with
+                | SL l0 => SL (l0 ++ [SN 0; loc; snat (length (index s))])
+                | y => y
+                end
+      | LOpenErr => err "open error on an open cache"
+      end
+  | LUninit _ _ dir =>
+      SL [ sym "open_err"; SN 0; SL []; SN 0; SN 0; loc; snat (length (files dir)) ]
+  end.
+
+Definition run_lazy (x : sx) : sx :=
+  match x with
+  | SL (c :: SL ops :: _) =>
+      match dec_lops ops with
+      | Some os => let root := bs "root" in
+                   SL (map (enc_lobs root) (ltrace (LUninit root (get_N c) (empty (get_N c))) os))
+      | None => err "bad op"
+      end
+  | _ => err "bad case"
+  end.
+
 Definition dispatch (leg : list N) (x : sx) : sx :=
   if bytes_eqb leg (bs "lru") then run_c07 x
   else if bytes_eqb leg (bs "put") then run_put x
+  else if bytes_eqb leg (bs "lazy") then run_lazy x
   else err "unknown leg".
